@@ -70,6 +70,25 @@ pub fn cells(tier: Tier) -> Vec<CellPlan> {
     c.rounds = if q { 3 } else { 4 };
     v.push(plan(c, if q { 1 } else { 2 }, 3.0));
 
+    // Events buffered on the server (emitted on a frame without a tick) at the moment it stops.
+    let mut c = base("restart-buffered", 1);
+    c.alphabet = vec![
+        EvOp::Nop,
+        EvOp::StopServer,
+        EvOp::StartServer,
+        EvOp::StartServerWith(0),
+        EvOp::Connect(0),
+        EvOp::EmitS(SK::E1, Mode::Broadcast, None),
+        EvOp::EmitS(SK::T1, Mode::Broadcast, None),
+    ];
+    c.env.hold_updates = 0;
+    c.env.hold_events = false;
+    c.env.hold_client_events = false;
+    c.env.hold_mutations = false;
+    c.env.hold_acks = false;
+    c.rounds = if q { 4 } else { 5 };
+    v.push(plan(c, 0, 2.0));
+
     // Two clients: one reconnects while the other keeps its session.
     let mut c = base("two", 2);
     c.alphabet = vec![
